@@ -136,6 +136,9 @@ func mustDeref(t types.Type) types.Type {
 
 func (in *Interp) visitInstr(fr *frame, instr ssa.Instruction) continuation {
 	in.steps++
+	if in.w.cfg.StepProf {
+		in.w.fnSteps[fr.fn]++
+	}
 	if in.steps > in.w.cfg.MaxSteps {
 		panic(pathAbort{kind: "steps", msg: fmt.Sprintf("step limit %d exceeded in %s", in.w.cfg.MaxSteps, fr.fn)})
 	}
@@ -284,7 +287,12 @@ func (in *Interp) visitInstr(fr *frame, instr ssa.Instruction) continuation {
 		fr.env[fr.info.idx[instr]] = fr.get(instr.Iter).(iter).next()
 
 	case *ssa.FieldAddr:
-		p := derefPtr(fr.get(instr.X), "field address in "+fr.fn.String())
+		var p *value
+		if pp, ok := fr.get(instr.X).(*value); ok && pp != nil {
+			p = pp
+		} else {
+			p = derefPtr(fr.get(instr.X), "field address in "+fr.fn.String())
+		}
 		s, ok := (*p).(structure)
 		if !ok {
 			in.unsupported("FieldAddr on %T in %s", *p, fr.fn)
@@ -446,26 +454,23 @@ func (in *Interp) callSSA(caller *frame, callpos token.Pos, fn *ssa.Function, ar
 	}
 	fr := &frame{in: in, g: g, caller: caller, fn: fn}
 	if fn.Parent() == nil {
-		name := fn.String()
-		if fn.Origin() != nil {
-			name = fn.Origin().String()
+		ci := in.w.callInfoOf(fn)
+		if ci.ext != nil {
+			in.w.stubsHit[ci.name]++
+			return ci.ext(fr, args)
 		}
-		if ext := in.w.external(fn, name); ext != nil {
-			in.w.stubsHit[name]++
-			return ext(fr, args)
-		}
-		if red := in.w.redirect[name]; red != nil {
-			in.w.stubsHit[name+" => "+red.String()]++
-			fn = red
-			fr.fn = red
+		if ci.red != nil {
+			in.w.stubsHit[ci.redName]++
+			fn = ci.red
+			fr.fn = ci.red
 		}
 		if fn.Blocks == nil {
-			in.unsupported("no code for function %s", name)
+			in.unsupported("no code for function %s", ci.name)
 		}
-		if pp := pkgPathOf(fn); pp == "reflect" || pp == "internal/reflectlite" || pp == "internal/abi" || pp == "unsafe" {
+		if ci.reflect {
 			// reflection-driven code cannot be executed symbolically: the code under test reached
 			// a library call that has neither an intercept nor a model
-			in.unsupported("reflection (%s) reached from %s: outside the models/intercepts of this engine", name, callerChain(caller))
+			in.unsupported("reflection (%s) reached from %s: outside the models/intercepts of this engine", ci.name, callerChain(caller))
 		}
 	}
 	if fn.TypeParams().Len() > 0 && len(fn.TypeArgs()) == 0 {
@@ -645,4 +650,33 @@ func callerChain(fr *frame) string {
 		s += c.fn.String()
 	}
 	return s
+}
+
+// callInfo caches what the engine knows about a callee (name lookups are expensive).
+type callInfo struct {
+	name    string
+	ext     extFn
+	red     *ssa.Function
+	redName string
+	reflect bool
+}
+
+func (w *Worker) callInfoOf(fn *ssa.Function) *callInfo {
+	if ci, ok := w.callInfo[fn]; ok {
+		return ci
+	}
+	name := fn.String()
+	if fn.Origin() != nil {
+		name = fn.Origin().String()
+	}
+	ci := &callInfo{name: name, ext: w.external(fn, name)}
+	if ci.ext == nil {
+		if red := w.redirect[name]; red != nil {
+			ci.red, ci.redName = red, name+" => "+red.String()
+		}
+		pp := pkgPathOf(fn)
+		ci.reflect = pp == "reflect" || pp == "internal/reflectlite" || pp == "internal/abi" || pp == "unsafe"
+	}
+	w.callInfo[fn] = ci
+	return ci
 }
